@@ -44,6 +44,33 @@ int op_cfun(int n, char **t) {
               : !strcmp(f, "htp_is_token") ? htp_is_token(c) : htp_is_folding_char(c);
         printf("%d", r); return 1;
     }
+    if (n == 2 && !strcmp(f, "htp_connp_is_line_folded")) {
+        unsigned char *a; long al = hex_parse(t[1], &a); if (al < 0) return 0;
+        printf("%d", htp_connp_is_line_folded(a, al)); free(a); return 1;
+    }
+    if (n == 4 && !strcmp(f, "htp_utf8_decode_allow_overlong")) {
+        uint32_t st = (uint32_t) strtoul(t[1], NULL, 10), cp = (uint32_t) strtoul(t[2], NULL, 10);
+        uint32_t r = htp_utf8_decode_allow_overlong(&st, &cp, (uint32_t) strtoul(t[3], NULL, 10));
+        printf("%u %u %u", r, st, cp); return 1;
+    }
+    if ((n == 2 || n == 3) && (!strcmp(f, "bstr_char_at") || !strcmp(f, "bstr_char_at_end") || !strcmp(f, "bstr_chr") || !strcmp(f, "bstr_rchr")
+                               || !strcmp(f, "bstr_chop") || !strcmp(f, "bstr_to_lowercase")
+                               || !strcmp(f, "bstr_begins_with_mem") || !strcmp(f, "bstr_begins_with_mem_nocase"))) {
+        unsigned char *a; long al = hex_parse(t[1], &a); if (al < 0) return 0;
+        bstr *b = bstr_dup_mem(a, al);
+        if (!strcmp(f, "bstr_chop") && n == 2) { bstr_chop(b); hex_print(stdout, bstr_ptr(b), bstr_len(b)); }
+        else if (!strcmp(f, "bstr_to_lowercase") && n == 2) { bstr_to_lowercase(b); hex_print(stdout, bstr_ptr(b), bstr_len(b)); }
+        else if (n == 3 && (!strcmp(f, "bstr_begins_with_mem") || !strcmp(f, "bstr_begins_with_mem_nocase"))) {
+            unsigned char *c; long cl = hex_parse(t[2], &c); if (cl < 0) { bstr_free(b); free(a); return 0; }
+            printf("%d", !strcmp(f, "bstr_begins_with_mem") ? bstr_begins_with_mem(b, c, cl) : bstr_begins_with_mem_nocase(b, c, cl)); free(c);
+        } else if (n == 3) {
+            unsigned long k = strtoul(t[2], NULL, 10);
+            int r = !strcmp(f, "bstr_char_at") ? bstr_char_at(b, k) : !strcmp(f, "bstr_char_at_end") ? bstr_char_at_end(b, k)
+                  : !strcmp(f, "bstr_chr") ? bstr_chr(b, (int) k) : bstr_rchr(b, (int) k);
+            printf("%d", r);
+        } else { bstr_free(b); free(a); return 0; }
+        bstr_free(b); free(a); return 1;
+    }
     if (n == 2 && !strcmp(f, "htp_normalize_uri_path_inplace")) {
         unsigned char *a; long al = hex_parse(t[1], &a); if (al < 0) return 0;
         bstr *b = bstr_dup_mem(a, al);
